@@ -2,7 +2,7 @@
 # tools/record_seed.sh <ID> <A|B> <check IDs to run...>
 # verify in the scratch worktree, run the listed checks against it, store under /verif/seeded/<ID>-<X>/
 ID=$1; X=$2; shift 2
-O=/tmp/seed/out/$ID
+O=${SEEDROOT:-/tmp/seed}/out/$ID
 v=$(/verif/tools/verify_seed.sh $ID $X)
 echo "$v"
 case "$v" in
@@ -11,7 +11,7 @@ case "$v" in
 esac
 wf=$(echo "$v" | sed -E 's/.*demo with patch=([0-9]+) ([0-9]+).*/\2/'); wof=$(echo "$v" | sed -E 's/.*demo without=([0-9]+) ([0-9]+).*/\2/')
 if [ "$wf" = "0" ] || [ "$wof" != "0" ]; then echo "NOT CONFIRMED (demo)"; exit 1; fi
-D=/verif/seeded/$ID-$X; mkdir -p $D
+D=/verif/seeded/$ID-${SEEDTAG:-}$X; mkdir -p $D
 cp $O/patch$X.diff $D/patch.diff; cp $O/demo$X.rs $D/demo.rs; cp $O/notes$X.md $D/notes.md
 det=""
 for c in "$@"; do
